@@ -814,3 +814,117 @@ def c06_10(ctx: Ctx):
     ok = len(es) == 1 and _equiv_guard(ls, es[0], "self._module.file_format == gtirb.Module.FileFormat.ELF") and "'FUNC'" in src(es[0].node.value)
     ctx.check(ok, st, es[0].node if es else st.node, "on ELF (and only there) the function symbol gets a FUNC elfSymbolInfo entry",
               "the elfSymbolInfo entry of the inserted function's symbol is missing / written for the wrong format", key="_insert_function_stub::elf-symbol-info")
+
+
+def _uleb(v: int) -> bytes:
+    out = bytearray()
+    while True:
+        b = v & 0x7F
+        v >>= 7
+        if v:
+            out.append(b | 0x80)
+        else:
+            out.append(b)
+            return bytes(out)
+
+
+def _sleb(v: int) -> bytes:
+    out = bytearray()
+    while True:
+        b = v & 0x7F
+        v >>= 7
+        done = (v == 0 and not b & 0x40) or (v == -1 and b & 0x40)
+        out.append(b if done else b | 0x80)
+        if done:
+            return bytes(out)
+
+
+@rule("C14.7", ["C14", "C15"], "LEB128 encoders: whatever shortcut precedes the library call produces exactly the DWARF encoding", 2)
+def c14_7(ctx: Ctx):
+    for cname, ref, lo in (("_ULEB128Encoder", _uleb, 0), ("_SLEB128Encoder", _sleb, -300)):
+        fi = ctx.repo.func(f"dwarf._encoders.{cname}.encode")
+        lin = linear(fi.node)
+        rets = [g for g in lin.stmts if isinstance(g.node, ast.Return) and g.node.value is not None]
+        if not rets:
+            raise AnalysisError(f"{cname}.encode: no return found")
+        short = [g for g in rets if not ("leb128." in src(g.node.value))]
+        if not short:
+            ctx.ok(fi, rets[0].node, f"{cname}.encode delegates to the leb128 library on every path", key=f"{cname}.encode::delegates")
+            continue
+        bad = None
+        for g in short:
+            v = g.node.value
+            elems = None
+            if isinstance(v, ast.Call) and src(v.func) in ("bytearray", "bytes") and len(v.args) == 1 and isinstance(v.args[0], (ast.Tuple, ast.List)):
+                elems = v.args[0].elts
+            if elems is None:
+                raise AnalysisError(f"{cname}.encode: shortcut `{src(v)[:60]}` not interpretable")
+            # the guard of the shortcut, as a predicate over `value`
+            conds = [i.test for i in walk_no_nested(fi.node) if isinstance(i, ast.If) and any(s is g.node for st in i.body for s in ast.walk(st))]
+            for val in range(lo, 400):
+                try:
+                    taken = all(bool(minieval(c, {"value": val})) for c in conds)
+                    if not taken:
+                        continue
+                    got = bytes(int(minieval(e, {"value": val})) & 0xFF for e in elems)
+                except Unknown as exc:
+                    raise AnalysisError(f"{cname}.encode: shortcut not interpretable: {exc}")
+                if got != ref(val):
+                    bad = (val, got.hex(), ref(val).hex())
+                    break
+            if bad:
+                break
+        ctx.check(bad is None, fi, short[0].node, f"{cname}.encode: the shortcut agrees with the LEB128 definition on every value it accepts",
+                  f"for value {bad[0] if bad else ''} the shortcut emits `{bad[1] if bad else ''}` but the DWARF encoding is `{bad[2] if bad else ''}`: the byte decodes to a different number",
+                  key=f"{cname}.encode::shortcut")
+
+
+@rule("C10.11", ["C10", "C04", "C05"], "what prepare_for_rewriting hands to the re-join is looked up *after* the rewrite (the rewrite may create aux-data tables)", 1)
+def c10_11(ctx: Ctx):
+    fi = ctx.repo.func("prepare.prepare_for_rewriting")
+    ys = [n for n in walk_no_nested(fi.node) if isinstance(n, ast.Expr) and isinstance(n.value, ast.Yield)]
+    if len(ys) != 1:
+        raise AnalysisError("prepare_for_rewriting: single yield not found")
+    yl = ys[0].lineno
+    joins = [c for c in calls_in(fi.node) if src(c.func) == "join_byte_intervals" and c.lineno > yl]
+    if not joins:
+        raise AnalysisError("prepare_for_rewriting: join_byte_intervals after the yield not found")
+    n = 0
+    for c in joins:
+        vals = list(c.args[2:]) + [k.value for k in c.keywords if k.arg in ("alignment", "tables")]
+        for v in vals:
+            if not isinstance(v, ast.Name):
+                continue
+            n += 1
+            asg = [a for a in walk_no_nested(fi.node) if isinstance(a, (ast.Assign, ast.AnnAssign)) and any(isinstance(t, ast.Name) and t.id == v.id for t in (a.targets if isinstance(a, ast.Assign) else [a.target]))]
+            fresh = any(a.lineno > yl and a.lineno < c.lineno for a in asg)
+            ctx.check(fresh or not asg, fi, c, f"`{v.id}` passed to join_byte_intervals is (re)fetched after the yield",
+                      f"`{v.id}` is only computed before the rewrite runs: a table the rewrite itself creates (symbolicExpressionSizes, comments, alignment on a module that had none) is missing from it, "
+                      "so its entries are not relocated when the per-block intervals are joined and stay keyed on intervals that are then detached from the module",
+                      key=f"prepare_for_rewriting::fresh::{v.id}")
+    if n < 1:
+        raise AnalysisError("prepare_for_rewriting: no table argument of join_byte_intervals recognised")
+
+
+@rule("C20.13", ["C20", "C04"], "merging into an OffsetMapping never replaces an element's whole inner mapping", 1)
+def c20_13(ctx: Ctx):
+    cls = ctx.repo.cls("_adt.offset_mapping.OffsetMapping")
+    n = 0
+    for name, m in sorted(cls.methods.items()):
+        if name in ("__setitem__", "__init__"):
+            continue
+        lin = linear(m.node)
+        for g in lin.stmts:
+            if not isinstance(g.node, ast.Assign):
+                continue
+            for t in g.node.targets:
+                whole = isinstance(t, ast.Subscript) and src(t.value) in ("self", "self._data") and not (isinstance(t.slice, ast.Call) and "Offset" in src(t.slice.func))
+                if not whole:
+                    continue
+                n += 1
+                k = src(t.slice)
+                ok = lin.under(g, f"{k} not in self._data") or lin.under(g, f"{k} not in self")
+                ctx.check(ok, m, g.node, f"{name}: `{src(t)} = ...` only for an element that has no entries yet",
+                          f"`{src(g.node)[:70]}` replaces everything recorded for `{k}`: Offsets of that element that are not in the source of the merge are dropped "
+                          "(e.g. the cfiDirectives a block already had when a patch's directives are merged in)", key=f"OffsetMapping.{name}::whole-element-store")
+    ctx.ok(cls.methods["__setitem__"], None, f"{n} whole-element stores outside __setitem__ examined", nontrivial=False, key="C20.13::scan")
